@@ -3,7 +3,8 @@
 From Coq Require Import ZArith QArith List Bool String Ascii.
 From Coq Require Import Floats.PrimFloat.
 From PAFCommon Require Import PyFloat PyNum.
-From PAFC07 Require Import Gen Model Proofs1 Proofs2 Proofs3 Proofs4 Proofs5 Proofs6 Refute.
+From Coq Require Import Permutation.
+From PAFC07 Require Import Gen Model Proofs1 Proofs2 Proofs3 Proofs4 Proofs5 Proofs6 Proofs7 Refute.
 Import ListNotations.
 Open Scope string_scope.
 Open Scope list_scope.
@@ -23,6 +24,11 @@ Proof. exact stable_ident. Qed.
 Theorem C07_stable_ids_labels : forall (md5 : string -> string) (ps : float -> string) (s s' m m' : node) (tag : option string),
   erase s = erase s' -> erase m = erase m' -> ident md5 ps (fit_obj s m tag) = ident md5 ps (fit_obj s' m' tag).
 Proof. exact stable_fit. Qed.
+
+(* a set of strings is described in sorted order: the iteration order of the process (hash seed) is invisible *)
+Theorem C07_stable_set_order : forall (md5 : string -> string) (ps : float -> string) (C : obj -> obj) (l l' : list string),
+  frame C -> Permutation l l' -> ident md5 ps (C (OSet l)) = ident md5 ps (C (OSet l')).
+Proof. exact set_order_irrelevant_ctx. Qed.
 
 (* SearchOutput.id (tag always passed, possibly None) describes the fit exactly as AbstractPaths does *)
 Theorem C07_output_id_same : forall (ps : float -> string) (s m : node) (tag : option string),
